@@ -398,7 +398,7 @@ func (g *gen) symbol() slip.Object {
 
 var safeSymbols = []string{"foo", "bar", "a", "x1", "car", "Foo", "FOO", "fooBar", "a-b", "*x*", "+", "-", "1+", "a.b", "...", "<=", "a:b", "$v", "%", "=", "~a", "^", "_",
 	"tt", "nile", ":key", ":Key", ":", ":1", "quote", "lambda", "u", "defun", "&rest", "a@b", "x/y"}
-var safePipeSymbols = []string{"a b", "a(b", "(", ")", "'", "a'b", "\"", ";", "a;b", "#", "a#", ",", "`", "a&b", "[", "]", "{", "}", "!", "a!", "A B", "Hello World", "x y z", "", "123", "-5", "1.", "1e5", "1d0", "1/2", "2s3", "a|b", "|", "a\\b", "\\", "a\x01b", "a\tb", "x|y z", ":a b", ":(", ":a|b"}
+var safePipeSymbols = []string{"a b", "a(b", "(", ")", "'", "a'b", "\"", ";", "a;b", "#", "a#", ",", "`", "a&b", "[", "]", "{", "}", "!", "a!", "A B", "Hello World", "x y z", "", "123", "-5", "1.", "1e5", "1d0", "1/2", "2s3", "a|b", "|", "a\\b", "\\", "a\x01b", "a\tb", "x|y z", ":a b", ":(", ":a|b", "a?", "?"}
 
 func (g *gen) safeAtom() slip.Object {
 	r := g.rng()
@@ -882,6 +882,13 @@ func repairedCases() (out []repairedCase) {
 		for _, c := range []cfg{flat, pretty, with(pretty, func(c *cfg) { c.pcase = "up"; c.margin = 2 }), with(flat, func(c *cfg) { c.pcase = "cap" })} {
 			out = append(out, repairedCase{"C03-6", c, slip.Symbol(name)})
 			out = append(out, repairedCase{"C03-6", c, slip.List{slip.Symbol(name), slip.Symbol(":k"), slip.Symbol(name)}})
+		}
+	}
+	// C03-7: ? in a name
+	for _, name := range []string{"a?", "?", "??", "null?", "?x", "A?b", ":key?"} {
+		for _, c := range []cfg{flat, pretty, with(pretty, func(c *cfg) { c.pcase = "up"; c.margin = 2 })} {
+			out = append(out, repairedCase{"C03-7", c, slip.Symbol(name)})
+			out = append(out, repairedCase{"C03-7", c, slip.List{slip.Symbol(name), slip.Symbol("x"), slip.Symbol(name)}})
 		}
 	}
 	return
